@@ -423,6 +423,9 @@ func (fx *FX) zeroLike(t Term) Term {
 // addLoopNames makes the loop's phi variables available by their source names; "$i" is the index
 // about to be processed by a range loop (hidden index + 1).
 func (fx *FX) addLoopNames(fr *frame, env *Env, b *ssa.BasicBlock) {
+	if env.at == nil && env.fr == fr {
+		env.at = b
+	}
 	for _, instr := range b.Instrs {
 		phi, ok := instr.(*ssa.Phi)
 		if !ok {
